@@ -87,14 +87,14 @@ macro "ret_auto" : tactic => `(tactic| repeat' ret_step)
 
 /-! ### to_null, to_str, to_bytes -/
 
-theorem C01_to_null_isinstance (f : Flags) (v : V) : Ret (toNull f v) (isInstT · (.cls .noneType 0) = true) := by
+theorem conv_to_null_isinstance (f : Flags) (v : V) : Ret (toNull f v) (isInstT · (.cls .noneType 0) = true) := by
   unfold toNull; ret_auto
 
-theorem C01_to_str_isinstance (P : Prims) (E : Env) (f : Flags) (c : Nat) (v : V) :
+theorem conv_to_str_isinstance (P : Prims) (E : Env) (f : Flags) (c : Nat) (v : V) :
     Ret (toStr P E f c v) (isInstT · (.cls .str c) = true) := by
   unfold toStr; ret_auto
 
-theorem C01_to_bytes_isinstance (P : Prims) (E : Env) (f : Flags) (b : BytesK) (c : Nat) (v : V) :
+theorem conv_to_bytes_isinstance (P : Prims) (E : Env) (f : Flags) (b : BytesK) (c : Nat) (v : V) :
     Ret (toBytes P E f b c v) (isInstT · (.cls b.base c) = true) := by
   unfold toBytes; ret_auto
 
@@ -132,7 +132,7 @@ theorem arrayOfString_inst (P : Prims) (f : Flags) (b : SeqK) (c : Nat) (s0 : St
     · exact construct_inst _ _ _
     · exact arrayTail_inst _ _ _ _
 
-theorem C01_to_array_isinstance (P : Prims) (f : Flags) (b : SeqK) (c : Nat) (v : V) :
+theorem conv_to_array_isinstance (P : Prims) (f : Flags) (b : SeqK) (c : Nat) (v : V) :
     Ret (toArray P f b c v) (isInstT · (.cls b.base c) = true) := by
   unfold toArray
   split
@@ -165,7 +165,7 @@ theorem dictRest_inst (P : Prims) (E : Env) (f : Flags) (c : Nat) (v : V) :
   unfold dictRest
   repeat' (first | with_reducible exact dictOfString_inst _ _ _ _ _ | ret_step)
 
-theorem C01_to_dict_isinstance (P : Prims) (E : Env) (f : Flags) (c : Nat) (v : V) :
+theorem conv_to_dict_isinstance (P : Prims) (E : Env) (f : Flags) (c : Nat) (v : V) :
     Ret (toDict P E f c v) (isInstT · (.cls .dict c) = true) := by
   unfold toDict
   split
@@ -177,7 +177,7 @@ theorem C01_to_dict_isinstance (P : Prims) (E : Env) (f : Flags) (c : Nat) (v : 
 theorem floatOf_inst (P : Prims) (c : Nat) (d : V) : Ret (floatOf P c d) (isInstT · (.cls .float c) = true) := by
   unfold floatOf; ret_auto
 
-theorem C01_to_float_isinstance (P : Prims) (E : Env) (f : Flags) (c : Nat) (v : V) :
+theorem conv_to_float_isinstance (P : Prims) (E : Env) (f : Flags) (c : Nat) (v : V) :
     Ret (toFloat P E f c v) (isInstT · (.cls .float c) = true) := by
   unfold toFloat
   repeat' (first | with_reducible exact floatOf_inst _ _ _ | ret_step)
@@ -197,12 +197,12 @@ theorem intAfter_inst (P : Prims) (f : Flags) (d : V) :
     · rename_i h; exact Ret.ok h        -- `isinstance(data, t)`: the argument itself
     · exact intFinish_inst _ _ _ _
 
-theorem C01_to_integer_isinstance (P : Prims) (E : Env) (f : Flags) (v : V) :
+theorem conv_to_integer_isinstance (P : Prims) (E : Env) (f : Flags) (v : V) :
     Ret (toInteger P E f 0 v) (isInstT · (.cls .int 0) = true) := by
   unfold toInteger
   repeat' (first | with_reducible exact intFinish_inst _ _ _ _ | with_reducible exact intAfter_inst _ _ _ | ret_step)
 
-theorem C01_to_decimal_isinstance (P : Prims) (E : Env) (f : Flags) (c : Nat) (v : V) :
+theorem conv_to_decimal_isinstance (P : Prims) (E : Env) (f : Flags) (c : Nat) (v : V) :
     Ret (toDecimal P E f c v) (isInstT · (.cls .decimal c) = true) := by
   unfold toDecimal; ret_auto
 
@@ -213,7 +213,7 @@ theorem complexOf_inst (P : Prims) (hP : PrimsTyped P) (d : V) :
   unfold Conv.complexOf
   repeat' (first | with_reducible exact hp _ | ret_step)
 
-theorem C01_to_complex_isinstance (P : Prims) (hP : PrimsTyped P) (E : Env) (f : Flags) (v : V) :
+theorem conv_to_complex_isinstance (P : Prims) (hP : PrimsTyped P) (E : Env) (f : Flags) (v : V) :
     Ret (toComplex P E f 0 v) (isInstT · (.cls .complex 0) = true) := by
   have hp2 : ∀ a b, Ret (P.complexOf2 a b) (isInstT · (.cls .complex 0) = true) := by
     intro a b r hr; obtain ⟨x, y, rfl⟩ := hP.complexOf2 a b r hr; simp
@@ -222,7 +222,7 @@ theorem C01_to_complex_isinstance (P : Prims) (hP : PrimsTyped P) (E : Env) (f :
   · rename_i h; exact Ret.ok h          -- `isinstance(data, t)`: the argument itself
   · repeat' (first | with_reducible exact complexOf_inst P hP _ | with_reducible exact hp2 _ _ | ret_step)
 
-theorem C01_to_bool_isinstance (P : Prims) (f : Flags) (v : V) :
+theorem conv_to_bool_isinstance (P : Prims) (f : Flags) (v : V) :
     Ret (Conv.toBool P f v) (isInstT · (.cls .bool 0) = true) := by
   unfold Conv.toBool; ret_auto
 
@@ -256,7 +256,7 @@ theorem firstFormat_inst (P : Prims) (hP : PrimsTyped P) (s suffix : String) (is
     · exact ih
     all_goals ret_step
 
-theorem C01_to_datetime_isinstance (P : Prims) (hP : PrimsTyped P) (E : Env) (f : Flags) (c : Nat) (df : Bool) (v : V) :
+theorem conv_to_datetime_isinstance (P : Prims) (hP : PrimsTyped P) (E : Env) (f : Flags) (c : Nat) (df : Bool) (v : V) :
     Ret (toDatetime P E f c df v) (isInstT · (.cls .datetime c) = true) := by
   unfold toDatetime
   split
@@ -285,7 +285,7 @@ theorem C01_to_datetime_isinstance (P : Prims) (hP : PrimsTyped P) (E : Env) (f 
               all_goals ret_step
         all_goals ret_step
 
-theorem C01_to_date_isinstance (P : Prims) (E : Env) (f : Flags) (v : V) :
+theorem conv_to_date_isinstance (P : Prims) (E : Env) (f : Flags) (v : V) :
     Ret (toDate P E f v) (isInstT · (.cls .date 0) = true) := by
   unfold toDate
   split
@@ -302,7 +302,7 @@ theorem C01_to_date_isinstance (P : Prims) (E : Env) (f : Flags) (v : V) :
 
 /-- `to_time` for the class `time` itself (`data.time()` and `to_datetime(...).time()` are plain `time`s:
 known finding subclass-result-plain for subclasses) -/
-theorem C01_to_time_isinstance (P : Prims) (hP : PrimsTyped P) (E : Env) (f : Flags) (v : V) :
+theorem conv_to_time_isinstance (P : Prims) (hP : PrimsTyped P) (E : Env) (f : Flags) (v : V) :
     Ret (toTime P E f 0 v) (isInstT · (.cls .time 0) = true) := by
   unfold toTime
   split
@@ -358,7 +358,7 @@ theorem durationRegs_inst (P : Prims) (hP : PrimsTyped P) (c : Nat) (s : String)
 
 /-- `to_timedelta` for the class `timedelta` itself (`sign * t(**kw)` is a plain timedelta: known finding
 subclass-result-plain for subclasses) -/
-theorem C01_to_timedelta_isinstance (P : Prims) (hP : PrimsTyped P) (E : Env) (f : Flags) (v : V) :
+theorem conv_to_timedelta_isinstance (P : Prims) (hP : PrimsTyped P) (E : Env) (f : Flags) (v : V) :
     Ret (toTimedelta P E f 0 v) (isInstT · (.cls .timedelta 0) = true) := by
   unfold toTimedelta
   split
@@ -385,7 +385,7 @@ theorem C01_to_timedelta_isinstance (P : Prims) (hP : PrimsTyped P) (E : Env) (f
       · exact Ret.perr _
     all_goals ret_step
 
-theorem C01_to_uuid_isinstance (P : Prims) (f : Flags) (c : Nat) (v : V) :
+theorem conv_to_uuid_isinstance (P : Prims) (f : Flags) (c : Nat) (v : V) :
     Ret (toUuid P f c v) (isInstT · (.cls .uuid c) = true) := by
   unfold toUuid
   split
@@ -416,7 +416,7 @@ theorem enumNameFallback_inst (E : Env) (f : Flags) (k : Nat) (v : V) (o : Outco
     · exact ho
   · exact ho
 
-theorem C01_to_enum_isinstance (P : Prims) (E : Env) (f : Flags) (k : Nat) (v : V) :
+theorem conv_to_enum_isinstance (P : Prims) (E : Env) (f : Flags) (k : Nat) (v : V) :
     Ret (toEnum P E f k v) (isInstT · (.enum k) = true) := by
   unfold toEnum
   split
@@ -472,7 +472,7 @@ theorem handleUnresolved_inst (P : Prims) (hP : PrimsTyped P) (u : Unresolved) (
       · exact Ret.unmodelled _
     · exact absurd rfl hu
 
-theorem C01_transform_isinstance (P : Prims) (hP : PrimsTyped P) (E : Env) (f : Flags) (u : Unresolved)
+theorem transform_isinstance (P : Prims) (hP : PrimsTyped P) (E : Env) (f : Flags) (u : Unresolved)
     (hu : u ≠ .ignore) (t : Target) (hk : KnownDefect.subclassPlain t = false) (he : targetExists t = true)
     (ha : ∀ a, t ≠ .abc a) (v : V) :
     Ret (transformU P E f u t v) (isInstT · t = true) := by
@@ -484,50 +484,50 @@ theorem C01_transform_isinstance (P : Prims) (hP : PrimsTyped P) (E : Env) (f : 
     · cases t with
       | abc a => exact absurd rfl (ha a)
       | obj k => simpa [resolve] using handleUnresolved_inst P hP u hu (.obj k) v
-      | enum k => simpa [resolve, runConv] using C01_to_enum_isinstance P E f k v
+      | enum k => simpa [resolve, runConv] using conv_to_enum_isinstance P E f k v
       | cls b c =>
         cases b
         case noneType =>
           cases c with
-          | zero => simpa [resolve, runConv] using C01_to_null_isinstance f v
+          | zero => simpa [resolve, runConv] using conv_to_null_isinstance f v
           | succ n => simpa [resolve] using handleUnresolved_inst P hP u hu _ v
         case bool =>
           cases c with
-          | zero => simpa [resolve, runConv] using C01_to_bool_isinstance P f v
+          | zero => simpa [resolve, runConv] using conv_to_bool_isinstance P f v
           | succ n => simp [targetExists] at he
         case int =>
           cases c with
-          | zero => simpa [resolve, runConv, subOf] using C01_to_integer_isinstance P E f v
+          | zero => simpa [resolve, runConv, subOf] using conv_to_integer_isinstance P E f v
           | succ n => simp [KnownDefect.subclassPlain] at hk
-        case float => simpa [resolve, runConv, subOf] using C01_to_float_isinstance P E f c v
+        case float => simpa [resolve, runConv, subOf] using conv_to_float_isinstance P E f c v
         case complex =>
           cases c with
-          | zero => simpa [resolve, runConv, subOf] using C01_to_complex_isinstance P hP E f v
+          | zero => simpa [resolve, runConv, subOf] using conv_to_complex_isinstance P hP E f v
           | succ n => simp [targetExists] at he
-        case decimal => simpa [resolve, runConv, subOf] using C01_to_decimal_isinstance P E f c v
-        case str => simpa [resolve, runConv, subOf] using C01_to_str_isinstance P E f c v
-        case bytes => simpa [resolve, runConv, Base.bytesK?, BytesK.base] using C01_to_bytes_isinstance P E f .bytes c v
-        case bytearray => simpa [resolve, runConv, Base.bytesK?, BytesK.base] using C01_to_bytes_isinstance P E f .bytearray c v
-        case memoryview => simpa [resolve, runConv, Base.bytesK?, BytesK.base] using C01_to_bytes_isinstance P E f .memoryview c v
-        case list => simpa [resolve, runConv, Base.seqK?, SeqK.base] using C01_to_array_isinstance P f .list c v
-        case tuple => simpa [resolve, runConv, Base.seqK?, SeqK.base] using C01_to_array_isinstance P f .tuple c v
-        case set => simpa [resolve, runConv, Base.seqK?, SeqK.base] using C01_to_array_isinstance P f .set c v
-        case frozenset => simpa [resolve, runConv, Base.seqK?, SeqK.base] using C01_to_array_isinstance P f .frozenset c v
-        case deque => simpa [resolve, runConv, Base.seqK?, SeqK.base] using C01_to_array_isinstance P f .deque c v
-        case dict => simpa [resolve, runConv, subOf] using C01_to_dict_isinstance P E f c v
+        case decimal => simpa [resolve, runConv, subOf] using conv_to_decimal_isinstance P E f c v
+        case str => simpa [resolve, runConv, subOf] using conv_to_str_isinstance P E f c v
+        case bytes => simpa [resolve, runConv, Base.bytesK?, BytesK.base] using conv_to_bytes_isinstance P E f .bytes c v
+        case bytearray => simpa [resolve, runConv, Base.bytesK?, BytesK.base] using conv_to_bytes_isinstance P E f .bytearray c v
+        case memoryview => simpa [resolve, runConv, Base.bytesK?, BytesK.base] using conv_to_bytes_isinstance P E f .memoryview c v
+        case list => simpa [resolve, runConv, Base.seqK?, SeqK.base] using conv_to_array_isinstance P f .list c v
+        case tuple => simpa [resolve, runConv, Base.seqK?, SeqK.base] using conv_to_array_isinstance P f .tuple c v
+        case set => simpa [resolve, runConv, Base.seqK?, SeqK.base] using conv_to_array_isinstance P f .set c v
+        case frozenset => simpa [resolve, runConv, Base.seqK?, SeqK.base] using conv_to_array_isinstance P f .frozenset c v
+        case deque => simpa [resolve, runConv, Base.seqK?, SeqK.base] using conv_to_array_isinstance P f .deque c v
+        case dict => simpa [resolve, runConv, subOf] using conv_to_dict_isinstance P E f c v
         case date =>
           cases c with
-          | zero => simpa [resolve, runConv] using C01_to_date_isinstance P E f v
+          | zero => simpa [resolve, runConv] using conv_to_date_isinstance P E f v
           | succ n => simpa [resolve] using handleUnresolved_inst P hP u hu _ v
-        case datetime => simpa [resolve, runConv, subOf] using C01_to_datetime_isinstance P hP E f c false v
+        case datetime => simpa [resolve, runConv, subOf] using conv_to_datetime_isinstance P hP E f c false v
         case time =>
           cases c with
-          | zero => simpa [resolve, runConv, subOf] using C01_to_time_isinstance P hP E f v
+          | zero => simpa [resolve, runConv, subOf] using conv_to_time_isinstance P hP E f v
           | succ n => simp [KnownDefect.subclassPlain] at hk
         case timedelta =>
           cases c with
-          | zero => simpa [resolve, runConv, subOf] using C01_to_timedelta_isinstance P hP E f v
+          | zero => simpa [resolve, runConv, subOf] using conv_to_timedelta_isinstance P hP E f v
           | succ n => simp [KnownDefect.subclassPlain] at hk
-        case uuid => simpa [resolve, runConv, subOf] using C01_to_uuid_isinstance P f c v
+        case uuid => simpa [resolve, runConv, subOf] using conv_to_uuid_isinstance P f c v
 
 end Utv.C01
